@@ -2,6 +2,7 @@ import OjgVerif.Reuse.Pool
 import OjgVerif.Reuse.Registry
 import OjgVerif.Props.C07
 import OjgVerif.Gen.SharedState
+import OjgVerif.Gen.ReadOnly
 /-! # C08 — concurrent use of the package-level APIs (PARTIAL: the ownership protocol only)
 
 The theorems here are about a hand-written ATOMIC-STEP model of the pools and caches
@@ -196,6 +197,48 @@ whichever goroutine cached what first (`C07.C07_struct_cache` over the regenerat
 theorem caches_order_free (c1 c2 : Reuse.Cache) (h1 : c1.wf) (h2 : c2.wf) (t : Nat) (om : Bool) :
     (Reuse.getTypeStruct C07.cacheSelectsByFlag c1 t om).1 = (Reuse.getTypeStruct C07.cacheSelectsByFlag c2 t om).1 :=
   C07.C07_struct_cache c1 c2 h1 h2 t om
+
+/-! ## The protocol assumption "one Get, one Put" and shared values that are not package variables -/
+
+/-- **every pooled function takes ONE instance and gives it back exactly ONCE on every path**: one
+`Get`; one `defer pool.Put(inst)` directly after it in the same block (it runs on return, on an
+error return and on a panic alike); no other `Put` anywhere in the function — and nobody else calls
+`Get`/`Put` on a pool (cross-checked with the shared-state inventory). This is the assumption
+`Reuse/Pool.lean` builds in (`put` moves the instance from the goroutine to the pool);
+`C08_double_put_shares_instance` shows what a second `Put` does. -/
+theorem pooled_put_once :
+    (pooled.all (fun p => p.gets == 1 && p.putsDefer == 1 && p.putsOther == 0) &&
+     Gen.SharedState.vars.all fun v =>
+       v.shape != "pool" ||
+       v.writers.all fun w => (pooled.map (·.name)).contains (v.pkg ++ "." ++ w.2.1)) = true := by decide
+
+/-- an instance that is in the pool twice (a second `Put` on some path) is handed to two goroutines:
+ownership is gone after two steps -/
+theorem C08_double_put_shares_instance :
+    ∃ (σ1 σ2 σ3 : State Unit Unit Unit),
+      σ1.pool = [0, 0] ∧ (∀ g, σ1.pcs g = .idle) ∧
+      Step (fun s => s) (fun s _ => s) (fun s => s) () true σ1 .none σ2 ∧
+      Step (fun s => s) (fun s _ => s) (fun s => s) () true σ2 .none σ3 ∧
+      (σ3.pcs 0).inst? = some 0 ∧ (σ3.pcs 1).inst? = some 0 := by
+  let σ1 : State Unit Unit Unit := { (init () : State Unit Unit Unit) with pool := [0, 0], fresh := 1 }
+  refine ⟨σ1, _, _, rfl, fun _ => rfl, Step.getPool σ1 0 0 [] rfl (by simp [σ1]), Step.getPool _ 1 0 [] rfl (by simp [σ1]), rfl, rfl⟩
+
+/-- **a shared Expr / Script / Filter is read-only during evaluation**: in the methods of package jp
+reached from the exported methods of Expr, Script, Filter and the fragment types (call graph by
+name; the path/script parsers and the Match token handler are private to a call) there is NO
+assignment through the receiver — no `s.f = …`, `s.f[i] = …`, `x[i] = …`, `copy(s.f, …)`,
+`append(s.f, …)` (generated, syntactic: a write through a local ALIAS of a receiver field is not
+seen; the stress run and `-race` look for those) -/
+theorem shared_expr_read_only :
+    (Gen.ReadOnly.jpReceiverWrites.isEmpty && decide (40 ≤ Gen.ReadOnly.jpReached)) = true := by decide
+
+/-- **options handed in by the caller are read-only**: no function of the root package, alt, oj, sen,
+pretty, gen, jp, asm assigns through a `*Options` parameter, through the receiver of a method of
+`ojg.Options`, through an element of a variadic `...*Options` or through a local alias of one of
+those (or of `&DefaultOptions`); the writers copy the options (`Options: *ta`) before they set
+`InitSize`/`WriteLimit` defaults (generated, syntactic) -/
+theorem shared_options_read_only :
+    (Gen.ReadOnly.optionsPointerWrites.isEmpty && decide (10 ≤ Gen.ReadOnly.optionsHolders)) = true := by decide
 
 /-! ## The inventory of shared state (generated)
 
